@@ -194,7 +194,7 @@ VISUAL_VALUES = {
     'fontname': ['helvetica', 'times'],
     'fontsize': [10, 12],
     'fontweight': ['bold', 'normal'],
-    'fontstyle': ['normal', 'italic'],
+    'fontstyle': ['normal', 'italic', 'roman'],     # (roman: DS9's name)
     'linestyle': ['dashed', 'solid',
                   {'t': 'tuple', 'v': [0, {'t': 'tuple', 'v': [3, 4]}]}],
     'marker': ['o', 's', '+', 'x', 'D', '*'],
